@@ -298,6 +298,41 @@ theorem precedence_refuted_library_unfixed :
   rw [hw] at hp
   exact absurd hp (by decide)
 
+/-! ## 4. several drivers in one process: resolution is a function of the driver's own arguments -/
+
+/-- **history independence**: in a process whose cache of parsed ssh configs is consistent with the files
+    (in particular the empty cache of a fresh process), every construction of a history — any length, any
+    mix of transports, hosts, explicit and omitted arguments — returns exactly what it returns in
+    isolation.  (The invariant behind it: entries handed out by the cache are only read.) -/
+theorem resolve_is_stateless (fx : Fixes) (W : Str → Str → HostCfg) (hist : List (Args × SshConfigView))
+    (c : Cache) (hc : c.Consistent W) (hh : ∀ s ∈ hist, Coherent W s.1 s.2) :
+    runHistory fx c hist = hist.map (fun s => resolve fx s.1 s.2) := by
+  induction hist generalizing c with
+  | nil => rfl
+  | cons s rest ih =>
+    obtain ⟨a, v⟩ := s
+    have hv : Coherent W a v := hh (a, v) (by simp)
+    simp only [runHistory, List.map_cons]
+    rw [step_result fx W c a v hc hv,
+        ih _ (step_consistent fx W c a v hc hv) (fun s hs => hh s (by simp [hs]))]
+
+/-- … hence the order of construction does not matter: permuting the history permutes the results -/
+theorem history_order_independent (fx : Fixes) (W : Str → Str → HostCfg) (h1 h2 : List (Args × SshConfigView))
+    (hp : h1.Perm h2) (hh : ∀ s ∈ h1, Coherent W s.1 s.2) :
+    (runHistory fx [] h1).Perm (runHistory fx [] h2) := by
+  have hc : Cache.Consistent W [] := by intro p h e hg; simp [Cache.get] at hg
+  rw [resolve_is_stateless fx W h1 [] hc hh,
+      resolve_is_stateless fx W h2 [] hc (fun s hs => hh s (hp.mem_iff.mpr hs))]
+  exact hp.map _
+
+/-- not a triviality: a constructor that writes its explicit port into the entry object it was handed makes
+    the second driver (port omitted) report the first driver's 830 instead of the file's 2222 -/
+theorem leaky_constructor_is_not_stateless :
+    ((runLeaky Fixes.all [] [(aLibPort830, vPort), (aLibPort, vPort)]).map
+        fun r => r.toOption.map (·.reported.port)) = [some 830, some 830] ∧
+    ((runHistory Fixes.all [] [(aLibPort830, vPort), (aLibPort, vPort)]).map
+        fun r => r.toOption.map (·.reported.port)) = [some 830, some 2222] := by decide
+
 /-! ## non-vacuity: concrete non-trivial values inside the quantifiers -/
 
 /-- fixed code: paramiko, host with blanks, key from `~`, user and Port from the ssh config -/
